@@ -22,13 +22,21 @@ for the same class, that the OTHER spellings the documented syntax permits give 
   and cut where it cuts (the text consumed by each call of `Lex`); the flag says that a blank precedes
   the token in `txt`.
 * `renderT texts seps` — the token texts interleaved with the separators `seps`, one before each token;
-  `LayoutOKT pieces seps` — one separator (`Sep`) per piece, **non-empty wherever the canonical text has
-  a blank** (elsewhere it may be empty).  A last separator `fin` may follow the last token.
+  `LayoutOKT pieces seps` — one separator (`Sep`) per piece; it may be EMPTY where the canonical text has
+  no blank, and also where it has one provided the token before tolerates the first character of this
+  token: `tolOf prevText c` — a syntactic criterion read off the first character of the token text
+  (a number tolerates the ASCII punctuation except `.` and `@`; a word the ASCII punctuation; `$` all of
+  it but `"`; a string, `$"…"`, a two-character operator, `( ) [ ] { } , ? @ + - %` everything; `.`
+  everything but a digit; `<` all but `=` `>`; `>` `!` all but `=`; `*` `/` all but `*`).  So `1+2`,
+  `@.x<>1`, `exists(@)`, `(@ > 1)is unknown` need no blanks, `last to`, `1 to` do.  `LayoutSimpleT` is
+  the simple sufficient condition "non-empty wherever the canonical text has a blank".  A last separator
+  `fin` may follow the last token.
 * `Item` / `ItemOK` / `canon` / `render` / `LayoutOK` / `Gaps` / `Resp` — the same at the level of the proofs: an
   item is a token text `c :: w` with its token `tk` and the condition `C` on the next character under
   which the scanner started on `c` reads exactly `c :: w` and returns `tk` (`RoundTrip.TokAt`);
-  `ItemOK` demands in addition that `C` holds of white space and of `/`.  `Gaps items C` says that in
-  the canonical text every token is followed by a character it tolerates.
+  `ItemOK` demands in addition that `C` holds of white space and of `/` and of every character `tolOf`
+  admits (this is where `tolOf` is proved sound, token kind by token kind).  `Gaps items C` says that
+  in the canonical text every token is followed by a character it tolerates.
 * `SpellsChar cs c`, `SpellsStr body s` — the character sequence `cs` inside a double-quoted string
   denotes the character `c`: a plain character (not `"`, `\`, newline, NUL), `\b \f \n \r \t \v`,
   `\c` for any other `c` not in `bfnrtvxu` (so `\"`, `\\`, `\/`), `\xHH`, `\uHHHH`, `\u{H…}` (1–6 digits)
@@ -57,8 +65,9 @@ Stage 1 — layout:
 * `lexer_layout` — tokens, each preceded by an arbitrary separator and followed by a character it
   tolerates, lex to exactly these tokens (`Layout.lexes_render`).
 * **`layout_independent`** — for `a` in `RT5`: cut the printed text into its token texts (`tokSplit`),
-  put ANY separator before each (non-empty where the printer writes a blank) and any separator at the
-  end: `parse o (utf8 …) = .ok a`.
+  put ANY separator before each (`LayoutOKT`: it may be empty except between two tokens that would
+  fuse) and any separator at the end: `parse o (utf8 …) = .ok a`.  `layout_independent_simple`: the
+  corollary for "non-empty where the printer writes a blank".
 * `layout_items` — the same in the form the proofs use, with respelled items (`RespL`).
 
 Stage 3 — spellings (token level, each "whatever follows", i.e. as `RoundTrip.TokAt`):
@@ -89,6 +98,35 @@ Stage 2 — redundant parentheses:
   more pairs of parentheses, and without the pair the printer adds, in every layout.
 * `redundant_parens_worked`, `redundant_parens_concrete`.
 
+Precedence and associativity (section "Operators nest by precedence and associativity"):
+* `mul_chain`, `arith_chain`, `pred_chain` — parser calculus, fuel linear in the number of tokens: on an
+  unparenthesised chain of units and `* / %`, `+ -` (resp. of atoms and `&&`, `||`) the parser builds the
+  left-nested tree in which `* / %` bind tighter than `+ -` (resp. `&&` tighter than `||`).
+* **`arithmetic_chain_parses`**, **`predicate_chain_parses`** — the same on texts, in every layout;
+  `comparisons_do_not_associate`: `l op r op' x` with two comparison operators is rejected, in every layout.
+
+The grammar (section "The documented syntax as a grammar"):
+* `Layout.Sp o cn : Cat → List Char → Prop` — 61 rules: every construct of the class, with parentheses
+  anywhere, keywords in any case, strings / variables / keys in any spelling, `<>`; `Sp.sound`.
+* **`every_spelling_parses`**, **`every_spelling_parses_pred`**, **`every_spelling_in_every_layout`** — every
+  text the grammar generates, after the mode keyword in any case, in every layout, parses to the tree the
+  derivation assigns.  `class_is_generated`: every tree of `RT5` is generated (with its printed text).
+
+Equivalent token streams (section "The parser is a function of the token stream"):
+* `Layout.TokEqX dot t t'` — the same token up to harmless differences of its TEXT: an integer literal of the
+  same value (`IntEq`: as `int64`, as `int32`, and negated), a keyword in any case provided the token before
+  is not `.` (`dot = false`), and — directly after a `.` — any two plain key names (bare identifier, quoted
+  string, keyword) with the same text.  `TokEqLX` is the pointwise relation on streams.
+* **`parser_depends_on_tokens`** (`Layout.sim_parseBodyX`, by `Layout.allSim`: a simulation between two runs of
+  all 16 functions of the parser's mutual block) — on equivalent streams `parseBody` returns the same mode,
+  predicate flag and tree.  This holds for ARBITRARY streams, not only those of the class.
+* **`equivalent_tokens_parse`** — class `RT5`: every text made of tokens (`ItemOK`, e.g. the kinds
+  `Layout.itKw`, `itStr`, `itIntB`, `itIdent`, …) in a strict layout (`LayoutStrict`: every empty separator
+  justified by `tolOf`) whose token stream is equivalent to that of the printed text (`toksOf`) parses to
+  `a`.  Hence INTEGER spellings (`0X1f`, `1_000`), keyword case and bare keys anywhere in a path.
+* **`task_example`** — `strict/* c */$ . "a"⏎[ 0 ,last ]?( @ . x<>0X1f )` parses to the tree of
+  `strict $."a"[0,last]?(@."x" != 31)`: an instance of `equivalent_tokens_parse`.
+
 ## Findings (model = Go, by `decide`; none is a deviation from the documented syntax)
 
 * `0x_1F`, `0o_17`, `0b_101` are rejected (`underscore_directly_after_prefix_rejected`): the lexer refuses an
@@ -98,17 +136,26 @@ Stage 2 — redundant parentheses:
 * inside a string, a backslash before any character other than `bfnrtvxu` yields that character
   (also a raw line feed); both halves of a surrogate pair may be written `\u{…}`.
 * `0x1F.abs()` is `(31).abs()` but `1.abs()` is an error (`1.` starts a fraction).
+* after a fraction, after `D.` and after an exponent a `.` ENDS the number (`1.5.abs()` is `(1.5).abs()`,
+  `1.5.e1` is the member `"e1"` of `1.5`); after a plain integer it starts a fraction (`1.abs()` is an
+  error, `1..abs()` and `1 .abs()` are `(1).abs()`); `0.89` is accepted although the digit loop runs in
+  base 8 after the leading `0`; `1e-400` silently becomes `0`, `1e400` is an error
+  (`Layout.what_follows`, `Layout.forms_accepted`, `Layout.forms_rejected`, `Layout.sample_range`).
+* a method keyword (`size`, `type`, `date`, …) directly after a `.` is a key only when no `(` follows;
+  so a bare and a quoted spelling of such a key are NOT interchangeable in the token-stream simulation
+  (the parser looks one token further for the bare one), while `.strict` / `."strict"` are.
 
 ## Not proved here
 
-* keyword case / integer spellings at every position of a whole path in one theorem (they change the
-  text component of the token; the parser lemmas that ignore it are proved position by position:
-  `Layout.accOp_method_any`, `isUnknown_atom_any`, `existsE_atom_any`, `startsE_atom_any`,
-  `regexE_atom_flag_any`, `accOp_anyRange_any`, `subRun_two_any`, … — `mode_keyword_any_case` is the
-  whole-path instance for the mode keyword);
-* numeric (non-integer) literals `.5`, `5.`, `1e3` (outside `RT5`: D5 of `Props/C02`);
-* layouts of texts that are not the printer's (e.g. unparenthesised left-associative chains
-  `1 - 2 - 3`): the parser calculus of `Lemmas/RoundTrip` covers the shapes the printer produces.
+* Non-integer literals `.5`, `5.`, `1e3`: token level (`numeric_forms`, `numeric_leading_dot`); their value
+  is `strconv.ParseFloat`'s (model `Decimal.parseFloat`, evaluated on samples, not proved correct), and the
+  class `RT5` has no numeric nodes (D5 of `Props/C02`).
+* a method keyword used as a bare key in the LAST position of a chain (`$.size`; `$.size.x` is covered),
+  bare `$name` containing `_`, `+` in `.decimal(+1)`: not generated by the grammar.
+* chains are built from units in one step or nested through parentheses (`arithmetic_chain_parses`);
+  the grammar `Sp` itself has the printer's parenthesisation (`(a - b) - c`) plus redundant parentheses.
+* completeness (that NOTHING else is accepted) is not claimed anywhere; `Layout.no_parenthesised_form`,
+  `Layout.forms_rejected`, `Layout.spellings_rejected`, `Layout.refused_concrete` record rejected samples.
 -/
 
 namespace Sqljson
@@ -149,6 +196,19 @@ theorem layout_independent {o : Oracles} (ok : Layout.OrOK o) (a : AST) (h : RT5
       ∀ (seps : List (List Char)) (fin : List Char), LayoutOKT (tokSplit o txt) seps → Sep fin →
         parse o (utf8 (renderT ((tokSplit o txt).map (·.2)) seps ++ fin)) = .ok a :=
   Layout.layout_independent ok a h
+
+/-- the simple sufficient condition: a non-empty separator wherever the printer writes a blank -/
+theorem layout_independent_simple {o : Oracles} (ok : Layout.OrOK o) (a : AST) (h : RT5 o a = true) :
+    ∃ txt, Print.toString o.isPrint a = some txt ∧
+      ∀ (seps : List (List Char)) (fin : List Char), LayoutSimpleT (tokSplit o txt) seps → Sep fin →
+        parse o (utf8 (renderT ((tokSplit o txt).map (·.2)) seps ++ fin)) = .ok a := by
+  obtain ⟨txt, h1, h2⟩ := Layout.layout_independent ok a h
+  exact ⟨txt, h1, fun seps fin hl hf => h2 seps fin (layoutOKT_of_simple hl) hf⟩
+
+/-- `tolOf` is sound: an item tolerates every character `tolOf` admits after its text (part of `ItemOK`) -/
+theorem tolOf_sound {o : Oracles} {it : Layout.Item} (h : ItemOK o it) (d : Char)
+    (hd : tolOf (it.c :: it.w) d = true) : it.C (some d) :=
+  h.2.2.2.2.2.2 d hd
 
 /-- the same in the form the proofs use: the printed text is the canonical text of token items, and
     every respelling (`RespL`) of the items in every layout parses to `a`, for every byte string that
@@ -235,6 +295,25 @@ theorem hex_spelling (o : Oracles) (ok : RoundTrip.OrOK o) {p : Char} (hp : pref
     (n < 2 ^ 63 → parseInt0 ('0' :: p :: hexDigitsOf upper n) = some (n : Int)) ∧
     (n ≤ 2 ^ 63 → parseInt0 (negLit ('0' :: p :: hexDigitsOf upper n)) = some (-(n : Int))) :=
   hex_literal o ok hp upper n
+
+/-- **non-integer numbers**: `D.D`, `D.`, each optionally with an exponent `e`/`E` `[+-]` digits, and `De…`
+    (`FloatForm`, single underscores between digits allowed) are the token `(NUMERIC_P, text)`, whatever
+    follows that does not continue the literal (`EndsNumeric`: not a digit, `_`, `e`/`E`, an identifier
+    start — a `.` DOES end it: `1.5.abs()`) -/
+theorem numeric_forms (o : Oracles) (ok : RoundTrip.OrOK o) {d : Char} {ds : List Char}
+    (h : FloatForm (d :: ds)) (hd : isDecimal d = true) :
+    TokAt o (EndsNumeric o) d ds (.numeric, d :: ds) :=
+  tokAt_float o ok h hd
+
+/-- `.D` with an optional exponent: the `.` followed by a digit starts a number -/
+theorem numeric_leading_dot (o : Oracles) (ok : RoundTrip.OrOK o) {ds : List Char} (h : FloatForm ('.' :: ds)) :
+    TokAt o (EndsNumeric o) '.' ds (.numeric, '.' :: ds) :=
+  tokAt_dot_float o ok h
+
+/-- the parser's action on a numeric token depends on its text only -/
+theorem numeric_value (txt : List Char) (f : F64) (s : PS) :
+    newNumeric txt s = .ok { node := .numeric f none, lit := txt } s ↔ parseFloatFinite txt = some f :=
+  newNumeric_iff txt f s
 
 section
 variable (o : Oracles) (ok : Layout.OrOK o) (up : OrUp o)
@@ -397,6 +476,235 @@ theorem redundant_parens_concrete :
     same "$.a - (1 - 2)" "$.a - 1 - 2" = false := by
   decide +kernel
 
+/-! ## Operators nest by precedence and associativity
+
+`mulTree x [(op₁,u₁),…]` is `((x op₁ u₁) op₂ u₂) …`; `sumTree T₀ [(op₁,T₁),…]` is `((T₀ op₁ T₁) op₂ T₂) …` with
+each term `Tᵢ` a `mulTree`; `andTree`, `orTree` likewise for `&&` within `||`.  A *unit* is an operand with
+its accessors, a signed unit or a parenthesised expression; an *atom* is a comparison, `exists (…)`,
+`!(…)`, `(…) is unknown`, `… starts with …`, `… like_regex …` or a parenthesised predicate. -/
+
+/-- `u₀ * u₁ / u₂ …`: `mulLoop` builds the left-nested product (fuel linear in the tokens) -/
+theorem mul_chain {o : Oracles} (ms : List (BinOp × UnitC)) (hms : MulsOK o ms) (x : Node) (g : Nat)
+    (rest : List TT) (hg : 16 * (mulToks ms).length + 4 ≤ g) (hu : UFollow (RoundTrip.hd rest).1)
+    (hm : mulOp (RoundTrip.hd rest).1 = none) :
+    Layout.RunsV (Layout.StE o (mulToks ms ++ rest)) (mulLoop o g (evOf x)) (evOf (mulTree x (mulNodes ms)))
+      (Layout.StA o rest) :=
+  mulLoop_chain ms hms x g rest hg hu hm
+
+/-- `x * … + T₁ - T₂ …`: `arithLoop` builds the left-nested sum of left-nested products -/
+theorem arith_chain {o : Oracles} (ms : List (BinOp × UnitC)) (hms : MulsOK o ms) (as : List (BinOp × TermC))
+    (has : AddsOK o as) (x : Node) (g : Nat) (rest : List TT)
+    (hg : 16 * ((mulToks ms).length + (addToks as).length) + 4 ≤ g) (hu : UFollow (RoundTrip.hd rest).1)
+    (ha : addOp (RoundTrip.hd rest).1 = none) (hm : mulOp (RoundTrip.hd rest).1 = none) :
+    Layout.RunsV (Layout.StE o (mulToks ms ++ (addToks as ++ rest))) (arithLoop o g (evOf x))
+      (evOf (sumTree ⟨x, mulNodes ms⟩ (addTerms as)), (RoundTrip.hd rest).1) (Layout.StA o rest) :=
+  arithLoop_chain ms hms as has x g rest hg hu ha hm
+
+/-- `a && … || C₁ || C₂ …`: `predLoop` builds the left-nested disjunction of left-nested conjunctions -/
+theorem pred_chain {o : Oracles} (as : List AtomC) (has : AndsOK o as) (cs : List ConjC) (hcs : OrsOK o cs)
+    (a : Node) (g : Nat) (rest : List TT) (hg : 16 * ((andToks as).length + (orToks cs).length) + 8 ≤ g)
+    (he : EndP (RoundTrip.hd rest).1) :
+    Layout.RunsV (Layout.StE o (andToks as ++ (orToks cs ++ rest))) (predLoop o g { node := a })
+      ({ node := orTree ⟨a, andNodes as⟩ (orConjs cs) }, (RoundTrip.hd rest).1) (Layout.StA o rest) :=
+  predLoop_chain as has cs hcs a g rest hg he
+
+/-- **precedence and associativity of `+ - * / %` on texts**: spellings of units joined by ` op `, WITHOUT
+    parentheses, after the mode prefix, parse to `sumTree` — in every layout -/
+theorem arithmetic_chain_parses {o : Oracles} (ok : Layout.OrOK o) (t₀ : TermT) (h₀ : t₀.OK o)
+    (as : List (BinOp × TermT)) (has : AddsOKT o as)
+    (hv : validate (sumTree t₀.term (addTermsT as)) = true) (lax : Bool) :
+    ∃ items, SpellInv o ⟨sumTree t₀.term (addTermsT as), lax, false⟩
+      (modeTxt lax ++ (t₀.head.txt ++ (mulTxt t₀.muls ++ addTxt as))) items :=
+  layout_expr_chain ok t₀ h₀ as has hv lax
+
+/-- **precedence and associativity of `&&` `||` on texts** -/
+theorem predicate_chain_parses {o : Oracles} (ok : Layout.OrOK o) (c₀ : ConjT) (h₀ : c₀.OK o) (cs : List ConjT)
+    (hcs : OrsOKT o cs) (hv : validate (orTree c₀.conj (orConjsT cs)) = true) (lax : Bool) :
+    ∃ items, SpellInv o ⟨orTree c₀.conj (orConjsT cs), lax, true⟩
+      (modeTxt lax ++ (c₀.head.txt ++ (andTxt c₀.ands ++ orTxt cs))) items :=
+  layout_pred_chain ok c₀ h₀ cs hcs hv lax
+
+/-- a parenthesised chain is a unit again (so chains nest through parentheses and plug into every rule) -/
+theorem chain_in_parens_is_a_unit {o : Oracles} (ok : Layout.OrOK o) {e : Node} {txt : List Char}
+    (h : ExprTC o e txt) : ExprT o e True True ('(' :: (txt ++ [')'])) :=
+  exprT_paren_of_chain ok h
+
+/-- **comparisons do not associate**: `l op r op' x` with two comparison operators is rejected, in every
+    layout (`RejectInv`: `parse = .err`) -/
+theorem comparisons_do_not_associate {o : Oracles} (ok : Layout.OrOK o) (op op' : BinOp) (hop : isCmp op = true)
+    (hop' : isCmp op' = true) {l r x : Node} {tl tr tx : List Char} (hl : ExprTC o l tl) (hr : ExprTC o r tr)
+    (hx : ExprTC o x tx) (lax : Bool) :
+    ∃ items, RejectInv o
+      (modeTxt lax ++ (tl ++ ' ' :: (Print.binStr op ++ ' ' :: (tr ++ ' ' :: (Print.binStr op' ++ ' ' :: tx)))))
+      items :=
+  cmp_nonassoc ok op op' hop hop' hl hr hx lax
+
+/-- `1 - 2 - 3` is `(1 - 2) - 3`, for every oracle (an instance of `arithmetic_chain_parses`) -/
+theorem left_assoc_worked {o : Oracles} (ok : Layout.OrOK o) (bytes : List UInt8)
+    (hb : decodeAll bytes = "1 - 2 - 3".toList.map Src.ch) :
+    parse o bytes = .ok ⟨.binary .sub (some (.binary .sub (some (.integer 1 none)) (some (.integer 2 none)) none))
+      (some (.integer 3 none)) none, true, false⟩ :=
+  sub3_parse_text ok bytes hb
+
+theorem precedence_concrete :
+    same "1 - 2 - 3" "(1 - 2) - 3" = true ∧ same "1 - 2 * 3 % 4 + 5" "(1 - ((2 * 3) % 4)) + 5" = true ∧
+    same "1 - 2 - 3" "1 - (2 - 3)" = false ∧
+    same "$.a == 1 || $.b == 2 && $.c == 3 || $.d == 4" "($.a == 1 || ($.b == 2 && $.c == 3)) || $.d == 4" = true ∧
+    same "1 + 2 == 3 * 4" "(1 + 2) == (3 * 4)" = true ∧ run "1 < 2 < 3" = "ERR" := by
+  decide +kernel
+
+/-! ## The documented syntax as a grammar
+
+`Layout.Sp o cn c txt`: the text `txt` is derivable for the judgement `c : Cat` — `expr e u m` ("a spelling of
+the expression `e`", `u`: fit for a unit position, `m`: fit as right operand of `+ -`), `pred p a l`,
+`step n` (one accessor), `chain nx`, `sub s`, `subs l`.  Its 61 constructors are the constructs of the
+class with their spelling freedoms: `paren` / `pparen` (parentheses around any expression / predicate, any
+number of times), `parenChain` (`(e).acc`), `mul`, `add`, `sign`, `negLit`, `cmp` (with `<>`), `and`, `or`,
+`not`, `exists_` / `exists0`, `isUnknown`, `starts`, `regex`, `regexFlag` (keywords in ANY case as
+parameters), leaves `root`, `current`, `nat`, `strTok` (string, `$"…"`, bare `$name`, any escapes), `last`,
+`const`, accessors `keyQ` (`."…"` any escapes), `keyIdent` (bare `.name`), `keyKw` / `keyLit` (keywords as
+keys), `keyIdentSp` (bare key with escapes), `method`, `date`, `datetime0`, `datetime`, `time0`, `time1`,
+`decimal`, `any1`, `any2`, `index`, `sub1`, `sub2` (`TO` any case), `filter`, `cons`, `consKwKey`, `nil`,
+`simple`; with `cn = true` also the canonical leaves of the class.  Blanks are written where the printer
+writes them; the layout theorem then allows any separators (`LayoutOKT`). -/
+
+/-- **C03 for expressions**: every text the grammar derives for `e`, after the mode keyword in any case (or
+    none), parses to `e` — in every layout, with every token that keeps its token respelled (`SpellInv`) -/
+theorem every_spelling_parses {o : Oracles} (ok : Layout.OrOK o) (up : OrUp o) {cn : Bool} {e : Node} {u m : Bool}
+    {txt : List Char} (h : SpExpr o cn e u m txt) (hv : validate e = true) {lax : Bool} {md : List Char}
+    {mt : List TT} (hm : ModeSp lax md mt) :
+    ∃ items, SpellInv o ⟨e, lax, false⟩ (withMode md txt) items :=
+  spells_parse_mode ok up h hv hm
+
+/-- **C03 for predicates** -/
+theorem every_spelling_parses_pred {o : Oracles} (ok : Layout.OrOK o) (up : OrUp o) {cn : Bool} {p : Node}
+    {a l : Bool} {txt : List Char} (h : SpPred o cn p a l txt) (hv : validate p = true) {lax : Bool}
+    {md : List Char} {mt : List TT} (hm : ModeSp lax md mt) :
+    ∃ items, SpellInv o ⟨p, lax, true⟩ (withMode md txt) items :=
+  spells_parse_pred_mode ok up h hv hm
+
+/-- the same with explicit separators: cut the derived text into its token texts and put any separators -/
+theorem every_spelling_in_every_layout {o : Oracles} (ok : Layout.OrOK o) (up : OrUp o) {cn : Bool} {e : Node}
+    {u m : Bool} {txt : List Char} (h : SpExpr o cn e u m txt) (hv : validate e = true) {lax : Bool}
+    {md : List Char} {mt : List TT} (hm : ModeSp lax md mt) (seps : List (List Char)) (fin : List Char)
+    (hl : LayoutOKT (tokSplit o (withMode md txt)) seps) (hfin : Sep fin) :
+    parse o (utf8 (renderT ((tokSplit o (withMode md txt)).map (·.2)) seps ++ fin)) = .ok ⟨e, lax, false⟩ :=
+  spells_layout ok up h hv hm seps fin hl hfin
+
+/-- the rules are sound: a derivation gives the relational bundle of its judgement -/
+theorem grammar_sound {o : Oracles} (ok : Layout.OrOK o) (up : OrUp o) {cn : Bool} {c : Cat} {t : List Char}
+    (h : Sp o cn c t) : c.den o t :=
+  Sp.sound ok up h
+
+/-- every tree of the class `RT5` is generated, with its printed text, WITHOUT the canonical-leaf rules -/
+theorem class_is_generated {o : Oracles} (ok : Layout.OrOK o) (a : AST) (h : RT5 o a = true) :
+    ∃ txt, Print.writeTo o.isPrint a.root false true = some txt ∧
+      Print.toString o.isPrint a = some (modeTxt a.lax ++ txt) ∧
+      (if a.pred then SpPred o false a.root true true txt else SpExpr o false a.root true true txt) :=
+  rt5_generated_core ok a h
+
+/-- a derivation instantiated (ASCII oracles): every keyword upper case, a bare key, `<>`, a string written
+    `"\x41"`, blanks around the punctuation — `Layout.exG_layout1`; with comments, tabs and newlines —
+    `Layout.exG_layout2` -/
+theorem grammar_worked :
+    parse asciiOracles (utf8 "STRICT $.foo ? ( @.\"bar\" <> \"\\x41\" && EXISTS ( @.c ) ) .SIZE()".toList)
+      = .ok ⟨exG, false, false⟩ :=
+  exG_layout1
+
+/-! ## The parser is a function of the token stream -/
+
+/-- **`parser_depends_on_tokens`.**  Two parser states standing before equivalent token streams
+    (`TokEqLX`: integer literals of equal value, keywords in any case except after a dot, bare / quoted /
+    keyword key names with the same text after a dot): if `parseBody` succeeds error-free on the first, it
+    succeeds on the second with the same mode, predicate flag and tree.  (Same fuel on both sides; the
+    streams are arbitrary.) -/
+theorem parser_depends_on_tokens {o : Oracles} {ts ts' : List TT} (h : TokEqLX false ts ts') {s s' : PS}
+    (hs : Layout.StE o ts s) (hs' : Layout.StE o ts' s') {f : Nat} {lax p : Bool} {ev : EV} {s1 : PS}
+    (hrun : parseBody o f s = .ok (lax, p, ev) s1) (hend : Layout.StE o [] s1) :
+    ∃ ev' s1', parseBody o f s' = .ok (lax, p, ev') s1' ∧ ev'.node = ev.node ∧ Layout.StE o [] s1' :=
+  sim_parseBodyX h hs hs' hrun hend
+
+/-- hexadecimal, octal, binary and underscore spellings are `IntEq` to the decimal one (instance) -/
+theorem intEq_example : IntEq "31".toList "0X1f".toList := by
+  refine ⟨⟨'3', _, rfl, Or.inl (by decide)⟩, ⟨'0', _, rfl, Or.inl (by decide)⟩, ?_, ?_, ?_⟩ <;> decide +kernel
+
+/-- **`equivalent_tokens_parse`** (class `RT5`): let `txt` be the printed text of `a`.  Every text that
+    consists of tokens (`ItemOK`, each tolerating the end of the text) separated by any separators — an
+    empty one only where `tolOf` allows it (`LayoutStrict`) — and whose token stream is equivalent to the
+    token stream of `txt` parses to `a`. -/
+theorem equivalent_tokens_parse {o : Oracles} (ok : Layout.OrOK o) (a : AST) (h : RT5 o a = true) :
+    ∃ txt, Print.toString o.isPrint a = some txt ∧
+      ∀ (items' : List Layout.Item) (seps : List (List Char)) (fin : List Char),
+        (∀ it ∈ items', ItemOK o it ∧ it.C none) → TokEqLX false (toksOf o txt) (items'.map (·.tk)) →
+        LayoutStrict items' seps → Sep fin →
+        parse o (utf8 (render items' seps ++ fin)) = .ok a :=
+  tokens_equiv_stage5 ok a h
+
+/-- `strict $."a"[0,last]?(@."x" != 31)` -/
+def exAll : AST :=
+  ⟨.const .root (some (.key "a".toList (some (.arrayIndex
+      [.binary .subscript (some (.integer 0 none)) none none,
+       .binary .subscript (some (.const .last none)) none none]
+      (some (.unary .filter (some (.binary .ne
+        (some (.const .current (some (.key "x".toList none)))) (some (.integer 31 none)) none)) none)))))),
+   false, false⟩
+
+example : RT5 asciiOracles exAll = true := by decide
+
+theorem exAll_toks : toksOf asciiOracles "strict $.\"a\"[0,last]?(@.\"x\" != 31)".toList =
+    [(.strict, "strict".toList), tDollar, tDot, (.string, "a".toList), tLb, (.int, "0".toList), tComma,
+     (.last, "last".toList), tRb, tQ, tLp, tAt, tDot, (.string, "x".toList), (.notEq, []), (.int, "31".toList), tRp] := by
+  decide +kernel
+
+/-- the tokens of the variant text, one by one -/
+def exAll_items : List Layout.Item :=
+  [itKw (o := asciiOracles) false 's' "trict".toList .strict, itDollar (o := asciiOracles) false, itDot false,
+   itStr false "a".toList "a".toList, itSolo false '[', itInt (o := asciiOracles) false '0' [], itSolo false ',',
+   itKw (o := asciiOracles) false 'l' "ast".toList .last, itSolo false ']', itSolo false '?', itSolo false '(',
+   itSolo false '@', itDot false, itIdent (o := asciiOracles) false 'x' [], itLtGt false,
+   itIntB (o := asciiOracles) false 'X' "1f".toList, itSolo false ')']
+
+/-- **`task_example`**: a comment after the mode keyword, blanks and a newline between the tokens, NO blanks
+    around the operator, a bare key `x` for `"x"`, `<>` for `!=`, `0X1f` for `31` — the same tree.  Obtained
+    from `equivalent_tokens_parse`, not by evaluation. -/
+theorem task_example :
+    parse asciiOracles (utf8 "strict/* c */$ . \"a\"\n[ 0 ,last ]?( @ . x<>0X1f )".toList) = .ok exAll := by
+  obtain ⟨txt, h1, h2⟩ := equivalent_tokens_parse orOK_ascii exAll (by decide)
+  have e : txt = "strict $.\"a\"[0,last]?(@.\"x\" != 31)".toList := by
+    have e : Print.toString asciiOracles.isPrint exAll = some "strict $.\"a\"[0,last]?(@.\"x\" != 31)".toList := by
+      decide +kernel
+    rw [e] at h1
+    injection h1 with h1
+    exact h1.symm
+  subst e
+  have ok := orOK_ascii
+  have up := orUp_ascii
+  have hok : ∀ it ∈ exAll_items, ItemOK asciiOracles it ∧ it.C none := by
+    simp only [exAll_items, List.forall_mem_cons, List.not_mem_nil, false_imp_iff, implies_true, and_true]
+    refine ⟨itKw_ok ok up false 's' "trict".toList "strict".toList .strict (by decide) (by decide) (by decide) (by decide),
+      itDollar_ok ok false, itDot_ok ok false,
+      itStr_ok ok false (body := "a".toList) (s := "a".toList) (spellsStr_plain _ (by decide)),
+      itSolo_ok ok false '[' (by decide), itInt_ok ok false '0' [] (by decide) (by decide),
+      itSolo_ok ok false ',' (by decide),
+      itKw_ok ok up false 'l' "ast".toList "last".toList .last (by decide) (by decide) (by decide) (by decide),
+      itSolo_ok ok false ']' (by decide), itSolo_ok ok false '?' (by decide), itSolo_ok ok false '(' (by decide),
+      itSolo_ok ok false '@' (by decide), itDot_ok ok false,
+      itIdent_ok ok up false 'x' [] (by decide) (by decide) (by decide), itLtGt_ok ok false,
+      itIntB_ok ok false (p := 'X') (base := 16) (by decide) (ds := "1f".toList) (n := 31) (by decide),
+      itSolo_ok ok false ')' (by decide)⟩
+  have r := fun t => TokEqX.refl false t
+  have heq : TokEqLX false (toksOf asciiOracles "strict $.\"a\"[0,last]?(@.\"x\" != 31)".toList)
+      (exAll_items.map (·.tk)) := by
+    rw [exAll_toks]
+    refine .cons (r _) (.cons (r _) (.cons (r _) (.cons (TokEqX.refl _ _) (.cons (r _) (.cons (r _) (.cons (r _)
+      (.cons (r _) (.cons (r _) (.cons (r _) (.cons (r _) (.cons (r _) (.cons (r _) (.cons ?_ (.cons (r _)
+      (.cons ?_ (.cons (r _) (.nil _)))))))))))))))))
+    · exact Or.inr ⟨rfl, by decide, by decide, rfl⟩
+    · exact Or.inl ⟨rfl, Or.inr (Or.inl ⟨rfl, intEq_example⟩)⟩
+  exact h2 exAll_items
+    [[], "/* c */".toList, " ".toList, " ".toList, "\n".toList, " ".toList, " ".toList, [], " ".toList, [], [],
+     " ".toList, " ".toList, " ".toList, [], [], " ".toList] [] hok heq (layoutStrict_of_B _ _ (by decide)) Sep.nil
+
 /-! ## A worked instance of `layout_independent` -/
 
 /-- `strict $."a"[0,last]` -/
@@ -426,6 +734,53 @@ example : parse asciiOracles (utf8 "strict/* c */$ . \"a\"\n[ 0 ,last\t]  /* end
   have := h2 [[], "/* c */".toList, " ".toList, " ".toList, "\n".toList, " ".toList, " ".toList, [], "\t".toList]
     "  /* end */".toList (by rw [exL_pieces]; exact layoutOKT_of_B _ _ (by decide)) (sep_of_sepB 20 _ (by decide))
   rw [exL_pieces] at this
+  exact this
+
+/-! ## A worked instance of `spelling_independent`: no blanks around the operator, `<>` for `!=` -/
+
+/-- `$?(@."x" != "A")` -/
+def exT : AST :=
+  ⟨.const .root (some (.unary .filter (some (.binary .ne
+      (some (.const .current (some (.key "x".toList none)))) (some (.str ['A'] none)) none)) none)), true, false⟩
+
+example : RT5 asciiOracles exT = true := by decide
+
+theorem exT_pieces : tokSplit asciiOracles "$?(@.\"x\" != \"A\")".toList =
+    [(false, "$".toList), (false, "?".toList), (false, "(".toList), (false, "@".toList), (false, ".".toList),
+     (false, "\"x\"".toList), (true, "!=".toList), (true, "\"A\"".toList), (false, ")".toList)] := by
+  decide +kernel
+
+/-- `$ ? (@."\u0078"<>"\x41")`: the key and the string respelled with escapes, `<>` for `!=`, EMPTY
+    separators around the operator (the string before it and the operator itself tolerate what follows) -/
+example : parse asciiOracles (utf8 "$ ? (@.\"\\u0078\"<>\"\\x41\")".toList) = .ok exT := by
+  obtain ⟨txt, h1, h2⟩ := spelling_independent orOK_ascii exT (by decide)
+  have e : txt = "$?(@.\"x\" != \"A\")".toList := by
+    have e : Print.toString asciiOracles.isPrint exT = some "$?(@.\"x\" != \"A\")".toList := by decide +kernel
+    rw [e] at h1
+    injection h1 with h1
+    exact h1.symm
+  subst e
+  have hx : SpellsStr "\\u0078".toList ['x'] :=
+    SpellsStr.single' (SpellsChar.u4 (hexDig_lower '0' 0 (by decide) (by decide))
+      (hexDig_lower '0' 0 (by decide) (by decide)) (hexDig_lower '7' 7 (by decide) (by decide))
+      (hexDig_lower '8' 8 (by decide) (by decide)) (by decide) (by decide)) (by decide)
+  have hA : SpellsStr "\\x41".toList ['A'] :=
+    SpellsStr.single' (SpellsChar.hex (hexDig_lower '4' 4 (by decide) (by decide))
+      (hexDig_lower '1' 1 (by decide) (by decide)) (by decide)) (by decide)
+  have hxc : SpellsStr "x".toList ['x'] := spellsStr_plain _ (by decide)
+  have hAc : SpellsStr "A".toList ['A'] := spellsStr_plain _ (by decide)
+  have same : ∀ p : Bool × List Char, PieceResp p p := fun p => ⟨rfl, Or.inl rfl⟩
+  have hp : PieceRespL (tokSplit asciiOracles "$?(@.\"x\" != \"A\")".toList)
+      [(false, "$".toList), (false, "?".toList), (false, "(".toList), (false, "@".toList), (false, ".".toList),
+       (false, "\"\\u0078\"".toList), (true, "<>".toList), (true, "\"\\x41\"".toList), (false, ")".toList)] := by
+    rw [exT_pieces]
+    refine .cons (same _) (.cons (same _) (.cons (same _) (.cons (same _) (.cons (same _) (.cons ?_ (.cons ?_
+      (.cons ?_ (.cons (same _) .nil))))))))
+    · exact ⟨rfl, Or.inr (Or.inl ⟨_, _, _, hxc, hx, rfl, rfl⟩)⟩
+    · exact ⟨rfl, Or.inr (Or.inr (Or.inr ⟨rfl, rfl, rfl⟩))⟩
+    · exact ⟨rfl, Or.inr (Or.inl ⟨_, _, _, hAc, hA, rfl, rfl⟩)⟩
+  have := h2 _ [[], " ".toList, " ".toList, [], [], [], [], [], []] [] hp
+    (layoutOKT_of_B _ _ (by decide)) Sep.nil
   exact this
 
 /-! ## Concrete evaluations (kernel `decide`, ASCII instance of the oracles) -/
